@@ -32,6 +32,23 @@ func runC02(c *bx.Ctx) {
 	c02DeltaQuant(c)
 	c.Space("lists")
 	c02Lists(c)
+	c.Space("NewCNAMESourceDescription")
+	for _, ssrc := range ssrcAlphabet {
+		for _, l := range []int{0, 1, 2, 3, 4, 5, 9, 254, 255} {
+			if !c.Mine() {
+				continue
+			}
+			txt := ref.NewTagger().Text(l)
+			p := rtcp.NewCNAMESourceDescription(ssrc, txt)
+			want := &rtcp.SourceDescription{Chunks: []rtcp.SourceDescriptionChunk{{Source: ssrc, Items: []rtcp.SourceDescriptionItem{{Type: rtcp.SDESCNAME, Text: txt}}}}}
+			c.T(1)
+			if path, ok := ref.Equal(want, p); !ok {
+				c.Report("C02/NewCNAMESourceDescription/value", "NewCNAMESourceDescription does not build a single CNAME chunk: "+path, bx.Replay{Entry: "NewCNAMESourceDescription", Value: fmt.Sprintf("%#x %q", ssrc, txt), Expected: ref.Dump(want), Observed: ref.Dump(p)})
+				continue
+			}
+			c02One(c, ref.V{P: p, Type: "SourceDescription", Shape: fmt.Sprintf("NewCNAME,text=%d", l)})
+		}
+	}
 }
 
 func c02One(c *bx.Ctx, v ref.V) {
